@@ -72,13 +72,32 @@ Definition seg_name_okb (sn : str) : bool :=
 
 Definition excluded (n : str) : bool := streqb n (unbs "ANYHL7SEGMENT") || streqb n (unbs "MSH").
 
+(* no field of the table is called <SEG>_i beyond the fields the segment defines *)
+Definition no_extra_fields (sn : str) (n : nat) : bool :=
+  forallb (fun p : str * sref => negb (bstarts (sn ++ unbs "_") (fst p)) ||
+                                 smem (fst p) (map (name_idx sn) (seq 1 n))) (t_fields t).
+
+Lemma no_extra_fields_sound sn n i : no_extra_fields sn n = true -> n < i ->
+  slookup (name_idx sn i) (t_fields t) = None.
+Proof.
+  intros H Hi. apply slookup_none. intros Hin. apply in_map_iff in Hin. destruct Hin as [[k v] [E Hin]].
+  cbn [fst] in E. subst k. unfold no_extra_fields in H. rewrite forallb_forall in H. specialize (H _ Hin).
+  cbn [fst] in H. assert (B : bstarts (sn ++ unbs "_") (name_idx sn i) = true).
+  { unfold name_idx. rewrite app_assoc. apply starts_with_app. }
+  rewrite B in H. cbn [negb orb] in H. apply smem_In in H. apply in_map_iff in H. destruct H as [j [Ej Hj]].
+  apply name_idx_inj in Ej. subst j. apply in_seq in Hj. lia.
+Qed.
+
 (* the whole table: keys are unique, every struct that Wf.v calls good satisfies the (stronger)
    premises of RoundTripSeg.v, segment names are upper case and not Z names.  The expensive part
    (every field row of every segment resolves to a well-formed reference) is Oblig/Wf_v*.v. *)
 Definition seg_tables_ok : bool :=
   nodupb streqb (map fst (t_structs t)) && nodupb streqb (map fst (t_segments t)) &&
   (let good := good_names in forallb (fun d => smem d good) (good_structs t)) &&
-  forallb (fun p : str * sref => seg_name_okb (fst p) || excluded (fst p)) (t_segments t).
+  forallb (fun p : str * sref => seg_name_okb (fst p) || excluded (fst p)) (t_segments t) &&
+  forallb (fun p : str * sref => match snd p with
+                                 | SSeqIn _ rows _ => no_extra_fields (fst p) (length rows)
+                                 | _ => true end) (t_segments t).
 
 (* ---- soundness ---- *)
 Hypothesis Hnd : NoDup (map fst (t_structs t)).
@@ -179,13 +198,21 @@ Lemma shipped_segment_ok v t sn r : tables_of v = Some t -> In (sn, r) (t_segmen
   slookup sn (t_segments t) = Some r /\
   exists rows, r = SSeqIn false rows None /\
     length sn = 3 /\ upper sn = sn /\ streqb sn (unbs "MSH") = false /\ valid_z_segment_name sn = false /\
-    rows_contiguous sn FIE 1 rows = true /\ (forall row, In row rows -> field_row_ok t row).
+    rows_contiguous sn FIE 1 rows = true /\ (forall row, In row rows -> field_row_ok t row) /\
+    (forall i, length rows < i -> slookup (name_idx sn i) (t_fields t) = None).
 Proof.
   intros Ht Hi Ha Hm.
   pose proof (lookup_forallb (fun _ x => seg_tables_ok x) all_tables v t all_seg_tables_ok Ht) as F.
-  unfold seg_tables_ok in F. do 3 (apply andb_prop in F; destruct F as [F ?F]).
+  unfold seg_tables_ok in F. apply andb_prop in F. destruct F as [F FX].
+  do 3 (apply andb_prop in F; destruct F as [F ?F]).
   apply nodupb_streqb_NoDup in F. apply nodupb_streqb_NoDup in F2.
   split; [now apply In_slookup|].
+  cut (exists rows, r = SSeqIn false rows None /\
+    length sn = 3 /\ upper sn = sn /\ streqb sn (unbs "MSH") = false /\ valid_z_segment_name sn = false /\
+    rows_contiguous sn FIE 1 rows = true /\ (forall row, In row rows -> field_row_ok t row)).
+  { intros [rows [-> R]]. exists rows. split; [reflexivity|]. repeat (destruct R as [?R R]). repeat split; auto.
+    intros i Hlt. rewrite forallb_forall in FX. specialize (FX _ Hi). cbn [fst snd] in FX.
+    now apply (no_extra_fields_sound t sn (length rows) i). }
   apply (wf_seg_sound t F F1).
   - apply (report_ok_seg t (sn, r)); auto. exact (Oblig.WfAll.tables_of_wf v t Ht).
   - rewrite forallb_forall in F0. specialize (F0 _ Hi). cbn [fst] in F0.
